@@ -848,17 +848,23 @@ private:
   /***/
   static fs::path _get_filename(fs::path filename, uint32_t index, std::string const& date_time)
   {
+    // Split the sink's own file name once: after the date has been appended to a file name without
+    // extension (`logfile.20240615`) the date would be taken for the extension and the index would
+    // end up in front of it
+    auto const [stem, ext] = base_type::extract_stem_and_extension(filename);
+    std::string name = stem;
+
     if (!date_time.empty())
     {
-      filename = _append_string_to_filename(filename, date_time);
+      name += "." + date_time;
     }
 
     if (index > 0)
     {
-      filename = _append_index_to_filename(filename, index);
+      name += "." + std::to_string(index);
     }
 
-    return filename;
+    return fs::path{name + ext};
   }
 
 protected:
